@@ -15,6 +15,7 @@ import (
 	"reflect"
 	"runtime"
 	"slices"
+	"sync"
 	"time"
 
 	"github.com/btcsuite/btcd/btcec/v2"
@@ -66,6 +67,15 @@ type Mint struct {
 	publisher *pubsub.PubSub
 	ctx       context.Context
 	cancel    context.CancelFunc
+
+	// Each of these state changes is a read followed by writes that depend on it,
+	// spread over several storage calls. Requests are served concurrently, so
+	// they are serialized here.
+	// mintQuoteMu: state transitions of mint quotes (UNPAID, PAID, PENDING, ISSUED).
+	mintQuoteMu *sync.Mutex
+	// proofsMu: checking that proofs are unspent and marking them pending or spent,
+	// settling or releasing pending proofs, and the state of the melt quote holding them.
+	proofsMu *sync.Mutex
 }
 
 func LoadMint(config Config) (*Mint, error) {
@@ -119,6 +129,9 @@ func LoadMint(config Config) (*Mint, error) {
 		publisher:  pubsub.NewPubSub(),
 		ctx:        ctx,
 		cancel:     cancel,
+
+		mintQuoteMu: &sync.Mutex{},
+		proofsMu:    &sync.Mutex{},
 	}
 	mint.db = verifWrapLoad(mint.db)
 
@@ -329,6 +342,13 @@ func (m *Mint) RequestMintQuote(mintQuoteRequest nut04.PostMintQuoteBolt11Reques
 
 // GetMintQuoteState returns the state of a mint quote.
 func (m *Mint) GetMintQuoteState(quoteId string) (storage.MintQuote, error) {
+	m.mintQuoteMu.Lock()
+	defer m.mintQuoteMu.Unlock()
+	return m.getMintQuoteState(quoteId)
+}
+
+// getMintQuoteState must be called with mintQuoteMu held.
+func (m *Mint) getMintQuoteState(quoteId string) (storage.MintQuote, error) {
 	mintQuote, err := m.db.GetMintQuote(quoteId)
 	if err != nil {
 		return storage.MintQuote{}, cashu.QuoteNotExistErr
@@ -363,7 +383,10 @@ func (m *Mint) GetMintQuoteState(quoteId string) (storage.MintQuote, error) {
 // MintTokens verifies whether the mint quote with id has been paid and proceeds to
 // sign the blindedMessages and return the BlindedSignatures if it was paid.
 func (m *Mint) MintTokens(mintTokensRequest nut04.PostMintBolt11Request) (cashu.BlindedSignatures, error) {
-	mintQuote, err := m.GetMintQuoteState(mintTokensRequest.Quote)
+	m.mintQuoteMu.Lock()
+	defer m.mintQuoteMu.Unlock()
+
+	mintQuote, err := m.getMintQuoteState(mintTokensRequest.Quote)
 	if err != nil {
 		return nil, err
 	}
@@ -516,6 +539,10 @@ func (m *Mint) Swap(proofs cashu.Proofs, blindedMessages cashu.BlindedMessages) 
 	if proofsMinusFees < blindedMessagesAmount {
 		return nil, cashu.InsufficientProofsAmount
 	}
+
+	// from checking that the proofs are unspent until they are saved as spent
+	m.proofsMu.Lock()
+	defer m.proofsMu.Unlock()
 
 	if err := m.verifyProofs(proofs, Ys); err != nil {
 		return nil, err
@@ -671,6 +698,9 @@ func (m *Mint) RequestMeltQuote(meltQuoteRequest nut05.PostMeltQuoteBolt11Reques
 // GetMeltQuoteState returns the state of a melt quote.
 // Used to check whether a melt quote has been paid.
 func (m *Mint) GetMeltQuoteState(ctx context.Context, quoteId string) (storage.MeltQuote, error) {
+	m.proofsMu.Lock()
+	defer m.proofsMu.Unlock()
+
 	meltQuote, err := m.db.GetMeltQuote(quoteId)
 	if err != nil {
 		return storage.MeltQuote{}, cashu.QuoteNotExistErr
@@ -783,6 +813,18 @@ func (m *Mint) MeltTokens(ctx context.Context, meltTokensRequest nut05.PostMeltB
 		Ys[i] = Yhex
 	}
 
+	// from reading the quote and checking the proofs until the proofs are pending
+	// and the quote is PENDING. Not held while the payment is attempted.
+	m.proofsMu.Lock()
+	locked := true
+	unlock := func() {
+		if locked {
+			locked = false
+			m.proofsMu.Unlock()
+		}
+	}
+	defer unlock()
+
 	meltQuote, err := m.db.GetMeltQuote(meltTokensRequest.Quote)
 	if err != nil {
 		return storage.MeltQuote{}, cashu.QuoteNotExistErr
@@ -822,6 +864,7 @@ func (m *Mint) MeltTokens(ctx context.Context, meltTokensRequest nut05.PostMeltB
 		errmsg := fmt.Sprintf("error updating melt quote state: %v", err)
 		return storage.MeltQuote{}, cashu.BuildCashuError(errmsg, cashu.DBErrCode)
 	}
+	unlock()
 
 	// before asking backend to send payment, check if quotes can be settled
 	// internally (i.e mint and melt quotes exist with the same invoice)
@@ -832,17 +875,9 @@ func (m *Mint) MeltTokens(ctx context.Context, meltTokensRequest nut05.PostMeltB
 		if err != nil {
 			return storage.MeltQuote{}, err
 		}
-		err := m.db.RemovePendingProofs(Ys)
-		if err != nil {
-			errmsg := fmt.Sprintf("error removing pending proofs: %v", err)
-			return storage.MeltQuote{}, cashu.BuildCashuError(errmsg, cashu.DBErrCode)
+		if err := m.settleProofs(Ys, proofs); err != nil {
+			return storage.MeltQuote{}, err
 		}
-		err = m.db.SaveProofs(proofs)
-		if err != nil {
-			errmsg := fmt.Sprintf("error invalidating proofs. Could not save proofs to db: %v", err)
-			return storage.MeltQuote{}, cashu.BuildCashuError(errmsg, cashu.DBErrCode)
-		}
-		m.publishProofsStateChanges(proofs, nut07.Spent)
 	} else {
 		var sendPaymentResponse lightning.PaymentStatus
 		// if melt is MPP, pay partial amount. If not, send full payment
@@ -977,7 +1012,9 @@ func (m *Mint) settleQuotesInternally(
 
 	// mark mint quote request as paid
 	mintQuote.State = nut04.Paid
+	m.mintQuoteMu.Lock()
 	err = m.db.UpdateMintQuoteState(mintQuote.Id, mintQuote.State)
+	m.mintQuoteMu.Unlock()
 	if err != nil {
 		errmsg := fmt.Sprintf("error updating mint quote state: %v", err)
 		return storage.MeltQuote{}, cashu.BuildCashuError(errmsg, cashu.DBErrCode)
@@ -991,6 +1028,9 @@ func (m *Mint) settleQuotesInternally(
 // settleProofs will remove the proofs from the pending table
 // and mark them as spent by adding them to the used proofs table
 func (m *Mint) settleProofs(Ys []string, proofs cashu.Proofs) error {
+	m.proofsMu.Lock()
+	defer m.proofsMu.Unlock()
+
 	err := m.db.RemovePendingProofs(Ys)
 	if err != nil {
 		errmsg := fmt.Sprintf("error removing pending proofs: %v", err)
@@ -1038,14 +1078,19 @@ func (m *Mint) ProofsStateCheck(Ys []string) ([]nut07.ProofState, error) {
 	}
 
 	// get pending proofs from db since they could have changed
-	// from checking the quote state
+	// from checking the quote state.
+	// Both tables are read under the lock so that proofs being settled
+	// (removed from pending, then added to used) are not seen in neither.
+	m.proofsMu.Lock()
 	pendingProofs, err = m.db.GetPendingProofs(Ys)
 	if err != nil {
+		m.proofsMu.Unlock()
 		errmsg := fmt.Sprintf("could not get pending proofs from db: %v", err)
 		return nil, cashu.BuildCashuError(errmsg, cashu.DBErrCode)
 	}
 
 	usedProofs, err := m.db.GetProofsUsed(Ys)
+	m.proofsMu.Unlock()
 	if err != nil {
 		errmsg := fmt.Sprintf("could not get used proofs from db: %v", err)
 		return nil, cashu.BuildCashuError(errmsg, cashu.DBErrCode)
